@@ -1086,6 +1086,23 @@ impl<'a> VisitMut for Rewriter<'a> {
                 self.pending_lets.push(parse_quote!(let #pn = #g;));
                 *e = parse_quote!(#f(&#x, #pn));
             }
+            Expr::Lit(l) if matches!(l.lit, syn::Lit::ByteStr(_)) => {
+                // R41: a byte-string literal b".." -> helper returning `&'static [u8; N]` whose contract lists the
+                // bytes (the verifier knows the literal's length but not its contents)
+                let bytes = match &l.lit { syn::Lit::ByteStr(b) => b.value(), _ => unreachable!() };
+                let hname = format!("vx_bstr_{}", lit_hash(&format!("{:?}", bytes)));
+                let n = bytes.len();
+                let elems: Vec<String> = bytes.iter().map(|b| format!("{}u8", b)).collect();
+                let helper = format!(
+                    "/// the byte-string literal {:?}: contract generated from the literal\n#[verifier::external_body]\npub fn {}() -> (r: &'static [u8; {}])\n    ensures r@ =~= seq![{}],\n{{ unimplemented!() }}",
+                    String::from_utf8_lossy(&bytes), hname, n, elems.join(", "));
+                if !self.fmt_helpers.iter().any(|(h, _)| h == &hname) {
+                    self.fmt_helpers.push((hname.clone(), helper));
+                }
+                self.logr("R41", line, format!("byte-string literal of {} bytes -> {}()", n, hname));
+                let f = syn::Ident::new(&hname, proc_macro2::Span::call_site());
+                *e = parse_quote!(#f());
+            }
             Expr::Match(m) if m.arms.iter().any(|a| matches!(a.pat, syn::Pat::Slice(_))) => {
                 // R40: `match S { [l0, l1, name @ .., r0] => A, .., _ => Z }` over a slice -> an if/else chain on the
                 // length and the literal elements, `name` bound to the sub-slice (the language's definition of
